@@ -15,6 +15,18 @@ CLAIMED = {
  "C05": dict(cat="other", tech="abstract evaluation of the accumulation loop (loop-carried array discipline), re-ordering comprehensions, the parametric one-vs-all iteration and the per-class decorator; role extraction from derived terms",
    text="Decides the structural clauses: which datum feeds row/column/increment, both axes re-ordered by the requested class order with key-set checks, the four one-vs-all conservation identities for a parametric class j (incl. zero-initialised buffer), metric-on-one_vs_all and class axis of as_dict for all 34 decorated methods, accuracy = trace/population.",
    ref="DESIGN §4 C05"),
+ "C02": dict(cat="other", tech="value numbering of the threshold front-ends with helper stubs (population, alias forwarding, flip parity, interpolation weights) + exact evaluation of the derived closed forms on order-type representatives",
+   text="Structural clauses are decided for all inputs on value numbers (which population is inverted, aliases forward target and method, target/method flip parity equals the direction derived from cm(), interpolation weights sum to one and are score-free). The magnitude clauses (within one sample, tie bracketing, lower/higher are samples with ordered rates, linear between, monotone in r) are decided by bounded enumeration: the derived closed forms are evaluated exactly on representatives of all order types with class sizes 1..4.",
+   ref="DESIGN §4 C02"),
+ "C03": dict(cat="other", tech="sentinel-coverage analysis: derived threshold and metric terms evaluated in exact arithmetic on one representative per cell of the finite order partition (target region x N=1/N>=2 x order type x easy counts)",
+   text="For every metric, configuration and method the composed closed form rate(threshold_at(r)) derived from the source is evaluated on representatives of each cell of the order partition for r<=0 and r>=1 and must equal the lowest/highest achievable value of the same derived rate term.",
+   ref="DESIGN §4 C03"),
+ "C08": dict(cat="other", tech="symbolic evaluation of swap(); polynomial identities between derived cm tables (swap and mirror images); derived threshold terms evaluated on representative pairs",
+   text="swap() builds exactly the mirrored object (8 instances); the cm table of the swapped object equals the role-transposed table and the reversed-direction table equals the mirror image of the original (32 identities valid for all inputs); threshold equivariance under affine maps and negation is decided on order-type representatives (bounded).",
+   ref="DESIGN §4 C08"),
+ "C09": dict(cat="other", tech="inverse-map derivation from the object's own rate term (substituting 0/len for counting atoms) compared with each front-end's rescale in normal form on every path",
+   text="Easy counts enter TP/TN with coefficient 1 in all 16 cells; all 13 count/ratio properties equal their definitions on every path; each of the 24 (metric, configuration) front-ends applies exactly the inverse of the forward map m = m_min + (m_max-m_min)*F derived from cm() and the metric definition.",
+   ref="DESIGN §4 C09"),
 }
 PENDING = "check not built yet (build phase in progress)"
 checks, na = [], []
